@@ -90,7 +90,7 @@ def run(tier, seed, replay=None):
         r2 = harness.compile_cases(build, work, [("g" + name, prog)], extra_args=["-g"])[0]
         if r2["rc"] != 0:
             ids = harness.error_ids([r2])
-            if set(ids) - {"3172", "3148"}:
+            if set(ids) - {"3148"}:
                 d = harness.save_case(rep, r2, "g" + name)
                 rep.violation("g" + name, {"gdl": prog.gdl(), "exit": r2["rc"], "errors": [l for l in r2["err"].split("\n") if "error" in l][:4],
                                            "log": r2["log"][-300:], "meaning": "-g should skip the unmapped U+2345 and compile"})
